@@ -630,7 +630,7 @@ RULE = ("(1) method level: random sequences (1-60 operations) of add_connection,
         "task / hook / waiter) is compared with the model; after the schedule every thread runs on freely and the outcome (wait() "
         "resolved, every port refuses connections — probed once, every connection task ended, every hook acknowledged, every waiter "
         "resolved) is compared. The two clauses of the property are evaluated on every observed run (oracle). The branch order of "
-        "tokio::select! in the accept future is random: a run in which the other ready branch was polled first is repeated (up to 8 "
+        "tokio::select! in the accept future is random: a run in which the other ready branch was polled first is repeated (up to 20 "
         "times), schedules contain at most one such step; what still cannot be executed is counted as out_of_domain. "
         "distinct_nontrivial counts distinct schedules / operation sequences by outcome")
 ASSUMPTIONS = [
